@@ -120,6 +120,17 @@ def parsePlan (origin : Bytes) : List TStep → List Tok → List TVal → Optio
     match parseUintN bits l.token with
     | some v => if l.err then none else parsePlan origin rest ts.tail (acc ++ [.n v])
     | none => none
+  | .uintAlg :: rest, ts, acc =>
+    let l := headTok ts
+    match parseUintN 8 l.token with
+    | some v => parsePlan origin rest ts.tail (acc ++ [.n v])
+    | none =>
+      match lookup Gen.stringToAlgorithm (goUpper l.token) with
+      | some v => if l.err then none else parsePlan origin rest ts.tail (acc ++ [.n v])
+      | none => none
+  | .tok :: rest, ts, acc =>
+    let l := headTok ts
+    if l.err then none else parsePlan origin rest ts.tail (acc ++ [.s l.token])
   | .name :: rest, ts, acc =>
     let l := headTok ts
     match toAbsoluteName l.token origin with
